@@ -571,7 +571,31 @@ func rulePairCount(p *Prog, r *Report, names []string) {
 			}
 		})
 		if !found {
-			r.Bad(rule, n, "result is ret[:cnt] with cnt == len(ret)", p.Pos(fn.Pos()), "the result-buffer idiom was not found")
+			// no counted prefix: the API may return the accumulated slice itself (its length is what append made it)
+			okDirect := false
+			eachInstr(fn, func(b *ssa.BasicBlock, in ssa.Instruction) {
+				ret, ok := in.(*ssa.Return)
+				if !ok || len(ret.Results) == 0 {
+					return
+				}
+				if u, ok := ret.Results[0].(*ssa.UnOp); ok {
+					if a, ok := u.X.(*ssa.Alloc); ok {
+						// the variable's address is handed to a module walker
+						for _, ref := range *a.Referrers() {
+							if ci, ok := ref.(ssa.CallInstruction); ok {
+								if g := staticCallee(ci.Common()); g != nil && p.InModule(g) {
+									okDirect = true
+								}
+							}
+						}
+					}
+				}
+			})
+			if okDirect {
+				r.OK(rule, n, "result is the accumulated slice", p.Pos(fn.Pos()), "the API returns the slice the walker appended to; no separate counter")
+			} else {
+				r.Bad(rule, n, "result is ret[:cnt] with cnt == len(ret)", p.Pos(fn.Pos()), "neither the counted-prefix idiom nor a direct return of the accumulated slice was found")
+			}
 		}
 	}
 }
